@@ -128,3 +128,31 @@ func VerifC04Serve() {
 	}
 	verifReach("end")
 }
+
+// C04-O3: the admission decision and the count are one step. Two arrivals of one source that
+// has max-1 requests in flight, the second running to completion at any lock boundary of the
+// first: exactly one is admitted and the count says so (no check-then-add window).
+func VerifC04Atomic() {
+	max := int64(verifConcretize(verifInt("max"), 1, 3))
+	ok := verifConcurrent("arrivals", 200000, func() (func(), func(), func() bool) {
+		cl := &ConnLimiter{mutex: &sync.Mutex{}, maxConnections: max, connections: map[string]int64{}, log: &utils.NoopLogger{}}
+		if max > 1 {
+			cl.connections["A"] = max - 1
+		}
+		cl.totalConnections = max - 1
+		var ea, eb error
+		return func() { ea = cl.acquire("A", 1) }, func() { eb = cl.acquire("A", 1) }, func() bool {
+			admitted := int64(0)
+			if ea == nil {
+				admitted++
+			}
+			if eb == nil {
+				admitted++
+			}
+			return admitted == 1 && cl.connections["A"] == max && cl.totalConnections == max
+		}
+	})
+	verifAssert("concurrent-arrivals-admit-exactly-one", ok)
+	verifAssert("lock-released", verifLocksHeld() <= 0)
+	verifReach("end")
+}
